@@ -416,6 +416,11 @@ class ReplaceMatch(ast.NodeTransformer):
         default_body = None
 
         for c in node.cases:
+            if c.guard is not None:
+                # when a guard is false Python goes on with the following cases,
+                # an "if" inside the Verilog case arm would not
+                raise TranspilationException('guards in match cases are not supported: case {} if {}'.format(ast.unparse(c.pattern), ast.unparse(c.guard)))
+
             # Visit the body first
             body = [self.visit(stmt) for stmt in c.body]
 
@@ -427,12 +432,6 @@ class ReplaceMatch(ast.NodeTransformer):
             # Handle constant value matches
             if isinstance(c.pattern, ast.MatchValue):
                 value = self.visit(c.pattern.value)
-                # Optional guard
-                if c.guard:
-                    # In Verilog, this could be an 'if' inside the case body or ignored
-                    # depending on your semantics
-                    guard_expr = self.visit(c.guard)
-                    body = [VerilogIf(guard_expr, body, [])]
                 cases.append(VerilogCaseItem(value, body))
             else:
                 # Unsupported pattern type — could raise or skip
